@@ -106,3 +106,10 @@ pub(crate) fn drain_idle() -> bool {
         None => false,
     }
 }
+
+/// Re-exports of internal items for in-process verification drivers
+pub mod api {
+    pub use crate::core::verif_api::{preprocess, Directive, DirectiveType, PpResult};
+    pub use crate::core::{DepManager, ReplaceLineEnding, TagState};
+    pub use crate::fs::{AbsPath, GetLineEnding, Shell, TxtppPath};
+}
